@@ -103,9 +103,10 @@ PROPS = {
              "seeded thread plans: 2-4 tasks (thorough to 16) each with 3-8 operations, either through one shared descriptor (decode/reconstruct/query/encode), or creating, using and destroying their own instances (first-ever and subsequent creates, mixed backends, RS instances sharing GF tables), or both; "
              "a seeded scheduler (uniform random walk, sticky, PCT depth 1-3, run-to-completion with 1-3 preemptions) decides which parked thread runs at every yield point (operation boundaries, library lock operations, guarded hook sites at registry / counter / GF-table accesses); "
              "results compared with sequential truth, vector-clock happens-before check over the annotated accesses, ASan, deadlock and yield-budget detection",
-             (12000, 45), (400000, 900), ["the vector-clock detector sees only the annotated shared state (registry list, instance idesc, descriptor counter, GF tables); unannotated shared state is visible only to the result oracle and ASan",
+             (12000, 45), (400000, 900), ["the vector-clock detector sees only the annotated shared state (registry list, instance idesc, descriptor counter, GF tables); unannotated shared state is covered by the second pass: the same seeded schedules on a ThreadSanitizer build of the library (harness and hand-off uninstrumented, simulated locks forwarded to the real ones), plus the result oracle and ASan",
                                          "the lock primitive is the simulator's (the locking protocol is the library's)", ISAL_ASSUME],
-             expect_probes=["hook.registry.list", "hook.galois.tables", "hook.galois.counter", "canary.match", "get.within-tolerance"]),
+             expect_probes=["hook.registry.list", "hook.galois.tables", "hook.galois.counter", "canary.match", "get.within-tolerance"],
+             extra_flavours={"quick": {"tsan": (1600, 25)}, "thorough": {"tsan": (60000, 400)}}),
 }
 
 NOT_APPLICABLE = [
